@@ -138,6 +138,8 @@ def load_variants(seeded=False, benign=False):
                 if os.path.isfile(meta):
                     with open(meta) as f:
                         m = json.load(f)
+                    if m.get('undetected'):
+                        continue        # a recorded miss (DESIGN section 11): listed, not run
                     vs.append({'name': 'seeded/' + name, 'kind': 'breaking', 'patch': os.path.join(sd, name, 'patch.diff'),
                                'expect': m.get('detected_by') or [m['property']], 'props': ALL if m.get('run_all') else (m.get('detected_by') or [m['property']]), 'all': True})
     return vs
